@@ -9,6 +9,21 @@ unset GOSUMDB GOTOOLCHAIN 2>/dev/null || true
 export GOCACHE="${GOCACHE:-$HOME/.cache/go-build}"
 mkdir -p .work replay evidence
 
+build_cli() {
+  # the real CLI, twice: plain, and with the stdin/stdout server hook injected by overlay
+  mkdir -p .work/hooks
+  cp hooks/cli_server.go.txt .work/hooks/zz_verif_server.go
+  printf '{"Replace":{"/repo/cmd/zz_verif_server.go":"%s/.work/hooks/zz_verif_server.go"}}' "$PWD" > .work/overlay-cli.json
+  (cd /repo && go build -o "$OLDPWD/.work/univers" ./cmd) 2> .work/build-cli.log &&
+  (cd /repo && go build -overlay "$OLDPWD/.work/overlay-cli.json" -o "$OLDPWD/.work/univers-server" ./cmd) 2>> .work/build-cli.log
+  rc=$?
+  if [ $rc -ne 0 ]; then
+    echo "BUILD-ERROR: the CLI does not build from /repo's working tree" >&2
+    cat .work/build-cli.log >&2
+    exit 2
+  fi
+}
+
 build() {
   go build -o .work/vcheck ./cmd/vcheck 2> .work/build.log
   rc=$?
@@ -22,6 +37,7 @@ build() {
 case "${1:-}" in
   setup)
     build
+    build_cli
     echo "setup ok"
     ;;
   replay)
@@ -30,6 +46,7 @@ case "${1:-}" in
     ;;
   C[0-9][0-9])
     build
+    case "$1" in C06|C07|C15) build_cli ;; esac
     tier="${2:-${VERIF_TIER:-quick}}"
     exec ./.work/vcheck -prop "$1" -tier "$tier"
     ;;
